@@ -4,11 +4,14 @@ import (
 	"context"
 	"fmt"
 
+	kruisev1alpha1 "github.com/openkruise/kruise-api/apps/v1alpha1"
 	kruisev1beta1 "github.com/openkruise/kruise-api/apps/v1beta1"
 	apps "k8s.io/api/apps/v1"
 	metav1 "k8s.io/apimachinery/pkg/apis/meta/v1"
 	utilpointer "k8s.io/utils/pointer"
 	"sigs.k8s.io/controller-runtime/pkg/client"
+
+	"verif/harness/env"
 )
 
 func (s *Scenario) installOtherWorkload(w *World) error {
@@ -27,6 +30,14 @@ func (s *Scenario) installOtherWorkload(w *World) error {
 				PodManagementPolicy: apps.OrderedReadyPodManagement,
 				UpdateStrategy:      kruisev1beta1.StatefulSetUpdateStrategy{Type: apps.RollingUpdateStatefulSetStrategyType}}}
 		return w.Store.As("user").Create(context.TODO(), sts)
+	case "daemonset":
+		// one pod per node: the scenario's replica count is the node count of the simulated cluster
+		w.Env.Nodes = int(s.Replicas)
+		ds := &kruisev1alpha1.DaemonSet{ObjectMeta: metav1.ObjectMeta{Name: s.Name, Namespace: s.NS, Labels: map[string]string{"app": s.Name},
+			Annotations: map[string]string{env.NodesAnnotation: fmt.Sprint(s.Replicas)}},
+			Spec: kruisev1alpha1.DaemonSetSpec{Selector: &metav1.LabelSelector{MatchLabels: map[string]string{"app": s.Name}}, Template: podTemplate(s.Name, "v1"),
+				UpdateStrategy: kruisev1alpha1.DaemonSetUpdateStrategy{Type: kruisev1alpha1.RollingUpdateDaemonSetStrategyType}}}
+		return w.Store.As("user").Create(context.TODO(), ds)
 	}
 	return fmt.Errorf("workload kind %q not modelled yet", s.Kind)
 }
@@ -38,6 +49,9 @@ func (s *Scenario) otherWorkloadObject() client.Object {
 	if s.Kind == "advstatefulset" {
 		return &kruisev1beta1.StatefulSet{}
 	}
+	if s.Kind == "daemonset" {
+		return &kruisev1alpha1.DaemonSet{}
+	}
 	return nil
 }
 
@@ -46,6 +60,9 @@ func (s *Scenario) setOtherTemplate(obj client.Object, v string) {
 		o.Spec.Template.Spec.Containers[0].Image = "img:" + v
 	}
 	if o, ok := obj.(*kruisev1beta1.StatefulSet); ok {
+		o.Spec.Template.Spec.Containers[0].Image = "img:" + v
+	}
+	if o, ok := obj.(*kruisev1alpha1.DaemonSet); ok {
 		o.Spec.Template.Spec.Containers[0].Image = "img:" + v
 	}
 }
